@@ -220,6 +220,7 @@ func runC14(p *Prog, r *Report) {
 	declaredSignatureRule(p, r, "C14.R10")
 	localConfigNameRule(p, r, "C14.R11")
 	patternsUnmodifiedRule(p, r, "C14.R12")
+	localsKeyRule(p, r, "C14.R13")
 }
 
 // guardSpec: a validation that must exist in method.Parse as `if COND { return nil, <error> }`.
